@@ -152,7 +152,7 @@ def _show(d):
 # generators
 # ---------------------------------------------------------------------------------------------------------
 SYMBOLS = ["m", "s", "kg", "A", "K", "mol", "cd", "N", "J", "Pa", "a", "b", "x", "Hz", "base", "V", "ohm", "W",
-           "rad", "g", "L", "eV", "T", "C", "F", "lm"]
+           "rad", "g", "L", "eV", "T", "C", "F", "lm", "e", "E", "j", "inf", "nan", "None", "True", "X", "l", "O", "I"]
 CORRUPT = "abmsxKZ0123456789^-*/() " + DOT + "+.,_\n"
 
 
@@ -165,8 +165,10 @@ def gen_symbol(rng):
 
 def gen_int(rng):
     r = rng.random()
-    if r < 0.75:
+    if r < 0.7:
         return str(rng.choice([-4, -3, -2, -1, 1, 2, 3, 4, 2, -2, 0]))
+    if r < 0.78:
+        return rng.choice(["10", "-10", "100", "1000", "-0", "00", "-1", "1", "0", "16", "64", "-100"])
     if r < 0.9:
         return rng.choice(["-", ""]) + "0" + str(rng.randrange(0, 10))
     return str(rng.randrange(-120, 120))
@@ -217,7 +219,27 @@ def gen_sentence(rng):
     return out
 
 
+def tame(s, bound=14):
+    """The library's validity check is a backtracking regular expression  (TOKEN)+  : on a string that is NOT valid it tries
+    every way of cutting each letter run and digit run into shorter tokens, i.e. about 2**(sum of (run length - 1)) paths
+    (a 70-character corruption of a sentence with eleven 4-letter symbols took 369 s to be rejected).  That is a
+    performance matter, not part of C12; inputs that may be invalid are therefore kept below 2**bound paths by
+    shortening their symbols to one letter (the structure of the string is unchanged)."""
+    runs = re.findall(r"[a-zA-Z]+|[0-9]+", s)
+    if sum(len(r) - 1 for r in runs) <= bound:
+        return s
+    s = re.sub(r"[a-zA-Z]+", lambda m: m.group()[0], s)
+    runs = re.findall(r"[a-zA-Z]+|[0-9]+", s)
+    if sum(len(r) - 1 for r in runs) <= bound:
+        return s
+    return re.sub(r"[0-9]+", lambda m: m.group()[0], re.sub(r"[a-zA-Z]+", lambda m: m.group()[0], s))[:60]
+
+
 def corrupt(rng, s):
+    return tame(_corrupt(rng, s))
+
+
+def _corrupt(rng, s):
     kind = rng.randrange(3)
     if kind == 0 or not s:
         i = rng.randrange(len(s) + 1)
@@ -233,7 +255,8 @@ EXPONENTS = [Fraction(k) for k in range(-4, 5) if k] + [Fraction(1, 2), Fraction
 # further exponents that sqrt / constant powers produce (used in the random streams): denominators up to the bound 10
 MORE_EXPONENTS = [Fraction(1, 4), Fraction(-1, 4), Fraction(3, 4), Fraction(2, 3), Fraction(-2, 3), Fraction(2, 5), Fraction(5, 2),
                   Fraction(-5, 2), Fraction(1, 10), Fraction(-3, 10), Fraction(7, 10), Fraction(10, 3), Fraction(1, 6),
-                  Fraction(-1, 8), Fraction(12), Fraction(-10)]
+                  Fraction(-1, 8), Fraction(12), Fraction(-10), Fraction(10), Fraction(100),
+                  Fraction(-100), Fraction(16), Fraction(9, 10), Fraction(-9, 10), Fraction(1000)]
 
 
 def py_exponent(fr):
